@@ -42,7 +42,10 @@ def prune(dirpath, keep):
     subs = [os.path.join(dirpath, d) for d in os.listdir(dirpath)]
     subs = [d for d in subs if os.path.isdir(d)]
     subs.sort(key=lambda d: os.path.getmtime(d), reverse=True)
+    now = time.time()
     for d in subs[keep:]:
+        # a directory used within the last two hours may belong to a check that is running at this moment
+        if now - os.path.getmtime(d) < 7200: continue
         shutil.rmtree(d, ignore_errors=True)
 
 # ----------------------------------------------------------------------------- implementation build
